@@ -65,6 +65,10 @@ CHECKS = {
    text="Seeded exploration of Write racing handshake completion, retransmission, alerts and Close (yield-point scheduler, lossy handshakes, forged cleartext application records), with every secret a unique marker that is searched for in every datagram either endpoint hands to its socket, plus wire-level rules about what may appear unprotected in each protocol version and a differential check that the exporter is not a function of the cleartext handshake.",
    note="The exporter clause is a per-session differential check against a fixed family of public-only derivations, not a proof of secrecy; its RFC value for DTLS 1.2 is checked under C10. Alerts are not among the items the statement lists and may be emitted in clear.",
    technique="deterministic simulation: seeded schedule and fault exploration with marker scanning of all emitted datagrams"),
+ "C20": dict(level="exploration", design="§5 C20",
+   text="Seeded exploration of concurrent UpdateKeys calls and writers on both sides of an established DTLS 1.3 session under loss, duplication and reordering of KeyUpdate and ACK records, with late duplicates and a reference-forged future-epoch record; the independent refdtls decoder reads epochs, sequence numbers, KeyUpdate and ACK contents off the wire.",
+   note="'No longer retained' epochs are not probed (which old epochs are retained is implementation policy); only the not-yet-authorised direction is forged. ACK-before-success is a lower-bound check under concurrency (some KeyUpdate record of the caller acknowledged before each success).",
+   technique="deterministic simulation: seeded schedule and fault exploration with reference decoding of protected records"),
 }
 
 NOT_YET = {}
